@@ -258,6 +258,18 @@ func (t *SessionTeardown) cleanup(session *Session, cause TerminateCause) error 
 	t.mu.Lock()
 	defer t.mu.Unlock()
 
+	// A session is torn down once, however many paths (client PADT, admin
+	// action, dead peer detection, shutdown) ask for it: a second pass would
+	// send a second Accounting-Stop and touch fast path state that may belong
+	// to the next user of the address by now
+	session.mu.Lock()
+	if session.tornDown {
+		session.mu.Unlock()
+		return nil
+	}
+	session.tornDown = true
+	session.mu.Unlock()
+
 	ctx, cancel := context.WithTimeout(context.Background(), t.config.CleanupTimeout)
 	defer cancel()
 
